@@ -7,6 +7,7 @@ package main
 import (
 	"context"
 	"fmt"
+	"io"
 	"strconv"
 	"strings"
 	"time"
@@ -81,6 +82,9 @@ type recCase struct {
 	Entry  string     `json:"entry,omitempty"` // "" = LogAttrs
 	LOW    int        `json:"level_width,omitempty"`
 	MMW    int        `json:"min_msg_width,omitempty"`
+	// Prior: records with the same attributes (reversed order, other messages) issued on other
+	// loggers of every format right before the call; their output is not judged
+	Prior bool `json:"prior,omitempty"`
 }
 
 func (rc recCase) msg() string {
@@ -159,6 +163,29 @@ func emitRecord(rc recCase) (payloads []string, pan string) {
 	args := make([]any, 0, len(rc.Attrs))
 	for _, n := range rc.Attrs {
 		args = append(args, buildAttr(n))
+	}
+	if rc.Prior {
+		for i, f := range []string{"json", "logfmt", "color", rc.Format} {
+			pl := slog.New("prior").SetWriter(io.Discard).SetErrorWriter(io.Discard).SetLevel(slog.AlwaysLevel)
+			switch f {
+			case "json":
+				pl.SetJSONMode(true)
+			case "logfmt":
+				pl.SetColorMode(false)
+			default:
+				pl.SetColorMode(true)
+			}
+			pargs := make([]any, 0, len(rc.Attrs)+1)
+			if i%2 == 1 {
+				pargs = append(pargs, slog.NewAttr("first", "x"))
+			}
+			for j := len(rc.Attrs) - 1; j >= 0; j-- {
+				pargs = append(pargs, buildAttr(rc.Attrs[j]))
+			}
+			catch(func() {
+				pl.LogAttrs(context.Background(), slog.WarnLevel, strings.Repeat("a prior record, ", i+1)+"\nwith a second line", pargs...)
+			})
+		}
 	}
 	pan = catch(func() { l.LogAttrs(context.Background(), slog.Level(rc.Level), rc.msg(), args...) })
 	for _, e := range rec.events {
@@ -345,6 +372,9 @@ func recSig(rc recCase) string {
 	}
 	if rc.Caller {
 		s += " caller"
+	}
+	if rc.Prior {
+		s += " after-prior-records"
 	}
 	if rc.Named {
 		s += " named"
